@@ -135,9 +135,10 @@ def Send.client (m : Send) (f : Frame) : Verdict Send :=
 /-- the peer sends a frame: update its own books -/
 def Send.peer (m : Send) : PFrame → Send
   | .settings vals =>
-    -- a SETTINGS_INITIAL_WINDOW_SIZE above 2^31-1 is the peer's own protocol violation: the
-    -- client owes a FLOW_CONTROL_ERROR, not an acknowledgement (RFC 9113 section 6.5.2)
-    if vals.any (fun p => p.1 == sInitialWindowSize && decide (p.2 > 2147483647)) then m
+    -- a SETTINGS_INITIAL_WINDOW_SIZE above 2^31-1 or a SETTINGS_MAX_FRAME_SIZE outside
+    -- [2^14, 2^24) is the peer's own protocol violation: the client owes a connection error, not an
+    -- acknowledgement (RFC 9113 section 6.5.2)
+    if vals.any (fun p => (p.1 == sInitialWindowSize && decide (p.2 > 2147483647)) || (p.1 == sMaxFrameSize && (decide (p.2 < 16384) || decide (p.2 > 16777215)))) then m
     else { m with pending := m.pending ++ [vals] }
   | .settingsAck => m
   | .windowUpdate id inc =>
